@@ -217,6 +217,7 @@ func c16Handshake(rt *rapid.T) {
 	spec.Fault = rapid.SampledFrom(faults).Draw(rt, "fault")
 	sj, _ := json.Marshal(spec)
 	verdict := isolated("c16hs", []string{string(sj)}, nil)
+	verdict = harnessTrouble(verdict)
 	if strings.HasPrefix(verdict, "FAIL:") {
 		rt.Fatalf("%s\nspec %s", verdict, sj)
 	}
